@@ -1,0 +1,60 @@
+//go:build verif
+// +build verif
+
+// verif hooks for property C15 (add-only, compiled only with -tags verif): the geo handler split at the point where
+// it takes its snapshot of the database, and the reload function.
+
+package mod_geo
+
+import (
+	"net"
+	"net/url"
+	"path/filepath"
+	"runtime"
+)
+
+import (
+	"github.com/bfenetworks/bfe/bfe_basic"
+	"github.com/oschwald/geoip2-golang"
+)
+
+// VerifC15DataFile is the test database shipped next to this package.
+func VerifC15DataFile() string {
+	_, f, _, _ := runtime.Caller(0)
+	return filepath.Join(filepath.Dir(f), "test_data", "mod_geo", "geo.db")
+}
+
+func (m *ModuleGeo) VerifC15Reload(path string) error {
+	q := url.Values{}
+	q.Set("path", path)
+	return m.loadConfData(q)
+}
+
+// VerifC15Take does what geoHandler does first: read m.geoDB under the read lock.
+func (m *ModuleGeo) VerifC15Take() interface{} {
+	m.lock.RLock()
+	geoDB := m.geoDB
+	m.lock.RUnlock()
+	return geoDB
+}
+
+// VerifC15Use does what geoHandler does next: look the client address up in the database it took.
+func VerifC15Use(snap interface{}, ip string) string {
+	city, err := snap.(*geoip2.Reader).City(net.ParseIP(ip))
+	if err != nil {
+		return "err"
+	}
+	return city.Country.IsoCode
+}
+
+// VerifC15Handle runs the whole real handler for a new request.
+func (m *ModuleGeo) VerifC15Handle(ip string) string {
+	req := &bfe_basic.Request{}
+	req.ClientAddr = &net.TCPAddr{IP: net.ParseIP(ip)}
+	req.Context = make(map[interface{}]interface{})
+	m.geoHandler(req)
+	if v, ok := req.GetContext(CtxCountryIsoCode).(string); ok {
+		return v
+	}
+	return "err"
+}
